@@ -262,12 +262,18 @@ pub(crate) enum Attack {
     /// not the requested (proved) one
     BpPrivateChain,
     TpPrivateChain,
+    /// all requested transactions in ONE filtered block (genuine header and MMR proof) whose
+    /// Merkle proof names the index 2^32 - 1 first: merkle-cbt computes `index + 1` on `u32`
+    TpIndexMax,
+    /// every transaction of a block (a Merkle proof without lemmas) plus a made-up transaction
+    /// the user asks for, under an index that is nobody's sibling: the library skips it
+    TpFakeAmongAll,
 }
 
 /// the kinds `gen_step` drew from before kinds were appended (the draw of an old seed keeps its meaning)
 const OLD_ATTACKS: u64 = 34;
 
-pub(crate) const ATTACKS: [Attack; 38] = [
+pub(crate) const ATTACKS: [Attack; 40] = [
     Attack::BpSwapHeader,
     Attack::BpSwapHeaderReproved,
     Attack::BpForgedHeader,
@@ -306,6 +312,8 @@ pub(crate) const ATTACKS: [Attack; 38] = [
     Attack::BpForgedTwin,
     Attack::BpPrivateChain,
     Attack::TpPrivateChain,
+    Attack::TpIndexMax,
+    Attack::TpFakeAmongAll,
 ];
 
 impl Attack {
@@ -1109,8 +1117,11 @@ impl<'w> Ctx<'w> {
             let hashes2 = hashes.clone();
             let wr = b.witnesses_root();
             let root = h.transactions_root();
+            // the Merkle verdict as the handler computes it: the guard of the repository, then the
+            // library (what this verdict means is the theorem of the Cbmt layer, tied by `lcverif CBMT`)
             let mk = catch(move || {
-                MerkleProof::new(indices, lemmas).root(&hashes2).map(|raw| root == merkle_root(&[raw, wr])).unwrap_or(false)
+                crate::protocols::light_client::verif_exports::required_lemmas_count(&indices) == Some(lemmas.len())
+                    && MerkleProof::new(indices, lemmas).root(&hashes2).map(|raw| root == merkle_root(&[raw, wr])).unwrap_or(false)
             })
             .unwrap_or(false);
             let e = if v1 && v1wf && exts.len() == fbs.len() { self.ext_id(&exts[i]) } else { None };
@@ -1653,6 +1664,61 @@ fn mutate_tp(
             let p2 = p.as_builder().lemmas(lem.pack()).build();
             parts.filtered_blocks[j] = rebuild_fb(&parts.filtered_blocks[j], &|b| b.proof(p2.clone()));
             note = format!("last Merkle lemma of block {} dropped", bl[j].0);
+        }
+        Attack::TpFakeAmongAll => {
+            // a requested made-up transaction and a block all of whose transactions are requested
+            if std::env::var("VERIF_DEBUG_FAKE").is_ok() {
+                eprintln!("TpFakeAmongAll: missing {} forged-in-missing {:?} blocks {:?}", parts.missing.len(), parts.missing.iter().position(|h| forged.contains_key(h)), bl.iter().map(|(n, idx)| (*n, idx.len(), chain.block(*n).transactions().len())).collect::<Vec<_>>());
+            }
+            let j = parts.missing.iter().position(|h| forged.contains_key(h))?;
+            let ft = forged.get(&parts.missing[j]).unwrap().clone();
+            let k = bl.iter().position(|(n, idx)| idx.len() == chain.block(*n).transactions().len())?;
+            let (n, _) = bl[k].clone();
+            let count = chain.block(n).transactions().len();
+            let all: Vec<usize> = (0..count).collect();
+            let mut miss = parts.missing.clone();
+            miss.remove(j);
+            let mut bl2 = bl.clone();
+            bl2[k] = (n, all.clone());
+            parts = tp_parts(chain, last, &bl2, miss)?;
+            // the library sorts the hashes and pairs them with the indices as given
+            let mut entries: Vec<(Byte32, u32, packed::Transaction)> = all
+                .iter()
+                .map(|i| {
+                    let t = chain.block(n).transaction(*i).unwrap();
+                    (t.hash(), (count - 1 + i) as u32, t.data())
+                })
+                .collect();
+            entries.push((ft.hash(), (2 * count + 3) as u32, ft.data()));
+            entries.sort_by(|a, b| a.0.as_slice().cmp(b.0.as_slice()));
+            let ind: Vec<packed::Uint32> = entries.iter().map(|e| e.1.pack()).collect();
+            let txs: Vec<packed::Transaction> = entries.iter().map(|e| e.2.clone()).collect();
+            let p2 = packed::MerkleProof::new_builder().indices(packed::Uint32Vec::new_builder().set(ind).build()).build();
+            parts.filtered_blocks[k] = rebuild_fb(&parts.filtered_blocks[k], &|b| b.proof(p2.clone()).transactions(txs.clone().pack()));
+            note = format!("all {} transactions of block {} and a made-up one under the index {}", count, n, 2 * count + 3);
+        }
+        Attack::TpIndexMax => {
+            // at least two transactions under one header
+            let total: usize = bl.iter().map(|b| b.1.len()).sum();
+            if total < 2 {
+                return None;
+            }
+            let (n0, _) = bl[0].clone();
+            let mut txs: Vec<packed::Transaction> = Vec::new();
+            for (n, idx) in &bl {
+                for i in idx {
+                    txs.push(chain.block(*n).transaction(*i).unwrap().data());
+                }
+            }
+            parts = tp_parts(chain, last, &bl[..1], missing.clone())?;
+            let p = parts.filtered_blocks[0].proof();
+            let mut ind: Vec<packed::Uint32> = vec![u32::MAX.pack()];
+            for k in 1..txs.len() {
+                ind.push((k as u32).pack());
+            }
+            let p2 = p.as_builder().indices(packed::Uint32Vec::new_builder().set(ind).build()).build();
+            parts.filtered_blocks[0] = rebuild_fb(&parts.filtered_blocks[0], &|b| b.proof(p2.clone()).transactions(txs.clone().pack()));
+            note = format!("{} transactions under the header of block {} with the Merkle index 2^32 - 1", txs.len(), n0);
         }
         Attack::TpOtherLastStateContent => {
             if last < 3 || bl.is_empty() {
@@ -2276,6 +2342,14 @@ impl<'w> Ctx<'w> {
         let bh: Byte32 = tws.tx_status.block_hash.clone().expect("block hash").pack();
         let tb = self.tip_branch();
         let holder = (0..self.chains.len()).find(|i| self.chains[*i].number_of_hash(&bh).is_some());
+        if self.chains.iter().all(|c| c.tx_location(t).is_none()) {
+            out.violations.push((
+                format!("C02|committed-unknown-transaction|{}", self.cause_of(Some(&bh), Some(t)).unwrap_or_else(|| self.cause())),
+                format!("{} reports a transaction as committed that is in no block of any chain", what),
+                format!("# tx {} block {}", short(t), short(&bh)),
+            ));
+            return;
+        }
         if holder.is_some() && !self.on_any_chain(&bh) {
             out.violations.push((
                 format!("C02|committed-in-unproved-block|{}", self.cause()),
@@ -2879,6 +2953,26 @@ pub fn run(opts: &Options, prop: &str) -> Report {
                                 if r.chance(1, 3) {
                                     if let Some(h) = ctx.pick_header(&mut r, &Target::Unknown) {
                                         ctx.fetch_header(&h, &mut sink, &mut rep);
+                                    }
+                                }
+                            } else if *a == Attack::TpFakeAmongAll {
+                                // the user asks for every transaction of a small block and for a
+                                // made-up transaction
+                                let tip = ctx.usable_tip();
+                                if tip >= 3 {
+                                    let n = (0..12).map(|_| r.range(1, tip - 1)).min_by_key(|n| ctx.chain().block(*n).transactions().len()).unwrap();
+                                    let hashes: Vec<Byte32> = ctx.chain().block(n).transactions().iter().map(|t| t.hash()).collect();
+                                    for h in hashes {
+                                        ctx.fetch_tx(&h, &mut sink, &mut rep);
+                                    }
+                                    if let Some(h) = ctx.pick_tx(&mut r, &Target::Forged) {
+                                        ctx.fetch_tx(&h, &mut sink, &mut rep);
+                                    }
+                                }
+                            } else if *a == Attack::TpIndexMax {
+                                for _ in 0..r.range(2, 4) {
+                                    if let Some(h) = ctx.pick_tx(&mut r, &Target::OnChain) {
+                                        ctx.fetch_tx(&h, &mut sink, &mut rep);
                                     }
                                 }
                             } else if a.is_tp() {
